@@ -35,4 +35,12 @@ def cells(tier):
             out.append(cmk(PID, kinds, strict, 'string', T=T, tag='reports-through-a-collection'))
         out.append(cmk(PID, kinds, False, 'file', T=T, mids=['3', '20'], rc_mid='10', perm=[2, 0, 1], tag='reports-through-a-collection'))
     out.append(cmk(PID, ('roStoryDelete', 'roItemDelete', 'roStoryDelete'), False, 's3', T=T, tag='reports-through-a-collection'))
+    # fully applied messages of the remaining types emit no mosromgr warning: roReplace (also one that repeats a story
+    # ID), roMetadataReplace, roDelete, roReadyToAir
+    from .p_c04 import rcell, mcell
+    from .p_c03 import icell
+    for N, k, kw in ((2, 2, {}), (2, 2, {'repeat_id': True}), (3, 1, {'repeat_id': True})):
+        out.append(rcell(PID, N, k, T=60 if tier == 'quick' else 600, **kw))
+    for op in ('roDelete', 'roReadyToAir'):
+        out.append(icell(PID, op, N=2, T=60 if tier == 'quick' else 600))
     return out
